@@ -623,6 +623,7 @@ func suiteC09(s *Shard, n int) {
 	r := s.R
 	if s.Tier == "thorough" {
 		exhaustiveColours(s, s.NShards)
+		exhaustiveBlends(s, s.NShards)
 	}
 	if s.Index == 0 {
 		// all 256 one-byte colours and a stride through the two-byte colours, through the decoder
@@ -1079,6 +1080,14 @@ func suiteC12(s *Shard, n int) {
 			sz := func() float32 { return float32(math.Ldexp(float64(mant()), m+r.Intn(5)-2)) }
 			vb = ivg.ViewBox{MinX: 0, MinY: 0, MaxX: sz(), MaxY: sz()}
 			dx, dy = sz(), sz()
+		case 2:
+			// a very elongated viewBox fitted to an ordinary target: a slice overflows it by orders of magnitude
+			e := 10 + r.Intn(25)
+			long, short := float32(math.Ldexp(float64(mant()), e/2)), float32(math.Ldexp(float64(mant()), e/2-e))
+			if r.Bool() {
+				long, short = short, long
+			}
+			vb = ivg.ViewBox{MinX: 0, MinY: 0, MaxX: long, MaxY: short}
 		case 1:
 			// very elongated viewBox AND target (both tall or both wide), with different ratios
 			e1, e2 := 15+r.Intn(25), 15+r.Intn(25)
@@ -1158,7 +1167,9 @@ func monitorFit(line, mode string, vb ivg.ViewBox, dx, dy, ax, ay float32) (fail
 			fails = append(fails, Failure{"C12.meet-inside", line, fmt.Sprintf("(%g,%g)-(%g,%g) not inside %gx%g", x0, y0, x1, y1, W, H)})
 		}
 	} else {
-		if x0 > tolX || y0 > tolY || x1 < W-tolX || y1 < H-tolY {
+		// covering is judged relative to the TARGET size, as the property says, however large the overflow is
+		cx, cy := 1e-6*W, 1e-6*H
+		if x0 > cx || y0 > cy || x1 < W-cx || y1 < H-cy {
 			fails = append(fails, Failure{"C12.slice-covers", line, fmt.Sprintf("(%g,%g)-(%g,%g) does not cover %gx%g", x0, y0, x1, y1, W, H)})
 		}
 	}
@@ -1520,6 +1531,9 @@ func suiteC06(s *Shard, n int) {
 
 func suiteC15(s *Shard, n int) {
 	r := s.R
+	if s.Tier == "thorough" {
+		exhaustiveClamp(s, s.NShards)
+	}
 	for i := 0; i < n; i++ {
 		vb := ivg.DefaultViewBox
 		if r.Chance(40) {
